@@ -16,7 +16,7 @@ From Verif Require Import Gen.GenReports Gen.GenGState Model.GState Proofs.GStat
 Import ListNotations.
 
 (* for every nesting and every outcome: depth, awaiting_stack, handlers_stack and every
-   is_awaiting flag are the same after as before *)
+   is_awaiting flag are the same after as before ([gstate_eq] does not mention not_ready_yet: see below) *)
 Theorem C18_state_restored : forall p s, gstate_eq (g (snd (eval p s))) (g s).
 Proof. exact state_restored. Qed.
 Print Assumptions C18_state_restored.
@@ -36,20 +36,30 @@ Proof. exact latch_is_per_block. Qed.
 Print Assumptions C18_latch_is_per_block.
 
 (* the outcome of a program is a function of the module-level state (flags compared object by
-   object) and of the latches of the instances on the stack *)
+   object; not_ready_yet only while depth > 0) and of the latches of the instances on the stack *)
 Theorem C18_outcome_is_function_of_state : forall p s1 s2, agree s1 s2 ->
   fst (eval p s1) = fst (eval p s2) /\ agree (snd (eval p s1)) (snd (eval p s2)).
 Proof. exact eval_congr. Qed.
 Print Assumptions C18_outcome_is_function_of_state.
 
-(* a probe run after any history behaves as in the state before the history
-   (partial: as far as the modelled state goes) *)
+(* a probe run after any history behaves as in the state before the history, if the process is not inside a
+   speculation (depth 0; by C18_history_restored it stays 0 between runs once it is 0) -- in particular whatever the
+   history left in try_compute.not_ready_yet does not matter  (partial: as far as the modelled state goes) *)
 Theorem C18_probe_after_history_partial : forall hist p s,
-  handlers (g s) = [] ->
+  handlers (g s) = [] -> depth (g s) = 0%Z ->
   fst (eval p (run_all hist s)) = fst (eval p s) /\
   gstate_eq (g (snd (eval p (run_all hist s)))) (g s).
 Proof. exact probe_after_history. Qed.
 Print Assumptions C18_probe_after_history_partial.
+
+(* try_compute.not_ready_yet is NOT restored (it keeps what the last speculation found not ready), but it is dead data
+   outside a speculation: every read is guarded by depth > 0, and the only way to depth > 0 is __enter__ at depth 0,
+   which replaces the dict.  So with depth <= 0 two runs that differ only in the leftover behave the same. *)
+Theorem C18_leftover_not_ready_irrelevant : forall p dp aw fl hs n1 n2 l,
+  (dp <= 0)%Z ->
+  fst (eval p (mk_mstate (mk_gstate dp aw fl hs n1) l)) = fst (eval p (mk_mstate (mk_gstate dp aw fl hs n2) l)).
+Proof. exact leftover_not_ready_irrelevant. Qed.
+Print Assumptions C18_leftover_not_ready_irrelevant.
 
 (* the `assert ... pop() is ...` of the three __exit__ methods never fail: only exceptions that the
    program raises itself, or NotReadyError / DeferredCycle / UnrecoverableError / "unhandled
@@ -79,6 +89,15 @@ Example C18_ex_nesting :
   let r := eval p (mk_mstate initial_gstate (fun _ => false)) in
   fst r = ORaise EDeferredCycle /\ depth (g (snd r)) = 0%Z /\ awaiting (g (snd r)) = [] /\ handlers (g (snd r)) = [] /\
   flags (g (snd r)) 5%N = false /\ flags (g (snd r)) 6%N = false.
+Proof. vm_compute. repeat split; reflexivity. Qed.
+(* a speculation that finds d1 not ready records it, a second request inside the same speculation is refused at once
+   (the body, which would raise something else, is not run), the next outermost speculation starts from an empty record *)
+Example C18_ex_not_ready_yet :
+  let once := PWith CTry (PWait 1 (PNotReady PEnd) PEnd) PEnd in
+  let twice := PWith CTry (PCall (PWith CTry (PWait 1 (PNotReady PEnd) PEnd) PEnd) (PWait 1 (PRaise (EOther 5)) PEnd)) PEnd in
+  let s0 := mk_mstate initial_gstate (fun _ => false) in
+  nry (g (snd (eval once s0))) = [1%N] /\ fst (eval twice s0) = ONormal /\
+  fst (eval (PWith CTry (PWait 1 (PRaise (EOther 5)) PEnd) PEnd) (snd (eval once s0))) = ORaise (EOther 5).
 Proof. vm_compute. repeat split; reflexivity. Qed.
 Example C18_ex_latch :
   let p := PWith (CHandle 2 ObjNone) (PReport PError PEnd) PEnd in
